@@ -10,7 +10,7 @@
    still recognises the old shapes of that code and then emits tables for which `tables_ok` is false,
    so a regression breaks C13_source_tables_ok and everything that depends on it. *)
 From Coq Require Import ZArith List Bool.
-From PyxelV Require Import Model.Containers Proofs.Containers Proofs.ContainersEq.
+From PyxelV Require Import Model.Containers Proofs.Containers Proofs.ContainersEq Proofs.ContainersAssign Proofs.ContainersJudge.
 From PyxelGen Require Import Gen_C13.
 Import ListNotations.
 
@@ -147,6 +147,69 @@ Example C13_ex_reset :
   /\ reset_ok Signal OEmpty None (Some (mk_np [1; 2] F32 [5; 6]%Z)) = false.
 Proof. vm_compute. repeat split; reflexivity. Qed.
 
+(* ------------------------------------------------------------------ assignments *)
+
+(* "An assignment that violates this raises an error and leaves the previous content untouched": for EVERY
+   state of the container -- fresh, emptied or already FILLED with any array -- and every way of assigning
+   (c.array = a, photon.array_3d = a, c.update(a), `+=` / `+` on an empty container, detector.<bucket> = other),
+   an array that is no legal content (element type, ndarray/DataArray, shape, dims, wavelength coordinate) is
+   refused with an exception and the container is left exactly as it was.  No hypothesis on the state: what is
+   already stored never makes an illegal array acceptable. *)
+Theorem C13_illegal_assign_raises :
+  forall (c : container) (o : op) (a : arr),
+    assignment_of (c_kind c) o (c_content c) = Some (AsgArr a) ->
+    arr_form_ok (c_kind c) (c_rows c) (c_cols c) a = false ->
+    exists e, step src_tables c o = (c, Raise e).
+Proof. exact (illegal_assign_raises src_tables C13_source_tables_ok). Qed.
+Print Assumptions C13_illegal_assign_raises.
+
+(* never stale data after an assignment: an assignment that completes leaves exactly the assigned array in the
+   container (photons: negatives clipped to 0) whatever was stored before, and `detector.<bucket> = other` with an
+   EMPTY `other`, when it completes, leaves the bucket empty *)
+Theorem C13_assign_stores :
+  forall (c : container) (o : op),
+    snd (step src_tables c o) = Done ->
+    match assignment_of (c_kind c) o (c_content c) with
+    | Some (AsgArr a) => c_content (fst (step src_tables c o)) = Some (stored_form (c_kind c) a)
+    | Some AsgEmpty => c_content (fst (step src_tables c o)) = None
+    | None => True
+    end.
+Proof. exact (assign_stores src_tables C13_source_tables_ok). Qed.
+Print Assumptions C13_assign_stores.
+
+(* non-vacuity: wrong element types on FILLED containers of every kind, through every entry point; an empty
+   Photon assigned to a populated photon bucket (2-D and 3-D); what the judge of the implementation's
+   observations (`assign_violations`) says about a silent conversion and about stale photons *)
+Definition w_sig_f32 := mk_cont Signal 2 2 (Some (mk_np [2; 2] F32 [1; 2; 3; 4]%Z)).
+Definition w_img_u16 := mk_cont Image 2 2 (Some (mk_np [2; 2] U16 [7; 7; 7; 7]%Z)).
+Definition w_ph_2d := mk_cont Photon 2 3 (Some ex_ok2d).
+Definition w_ph_3d := mk_cont Photon 2 3 (Some ex_3d_ok).
+
+Example C13_ex_assign :
+  step src_tables w_sig_f32 (OSet (mk_np [2; 2] I64 [(-3); 0; 1; 2]%Z)) = (w_sig_f32, Raise TypeError)
+  /\ step src_tables w_img_u16 (OSet (mk_np [2; 2] F64 [1; 2; 3; 4]%Z)) = (w_img_u16, Raise TypeError)
+  /\ step src_tables w_img_u16 (OUpdate (Some (mk_np [2; 2] DBool [1; 0; 1; 1]%Z))) = (w_img_u16, Raise TypeError)
+  /\ step src_tables w_img_u16 (ODAssign (mk_cont Image 2 2 (Some (mk_np [2; 2] I32 [(-1); 2; 3; 4]%Z))))
+     = (w_img_u16, Raise TypeError)
+  /\ step src_tables w_ph_2d (OSet (mk_np [2; 3] C128 [1; 2; 3; 4; 5; 6]%Z)) = (w_ph_2d, Raise ValueError)
+  /\ step src_tables w_ph_3d (OSet3D (mk_xr [0; 1; 2] (Some [400; 420]%Z) [2; 2; 3] I16 [1; 1; 1; 1; 1; 1; 1; 1; 1; 1; 1; 1]%Z))
+     = (w_ph_3d, Raise ValueError)
+  /\ step src_tables w_ph_2d (ODAssign (empty_container Photon 2 3)) = (empty_container Photon 2 3, Done)
+  /\ step src_tables w_ph_3d (ODAssign (empty_container Photon 2 3)) = (empty_container Photon 2 3, Done)
+  /\ c_content (fst (step src_tables w_ph_3d (ODAssign (mk_cont Photon 2 3 (Some ex_neg2d)))))
+     = Some (mk_np [2; 3] F64 [0; 2; 3; 4; 5; 6]%Z)
+  (* the judge: a silently converted int64 array on a filled float32 signal is clause 7, stale photons after the
+     assignment of an empty Photon are clause 8, a stored array other than the assigned one is clause 8 *)
+  /\ assign_violations Signal 2 2 (OSet (mk_np [2; 2] I64 [(-3); 0; 1; 2]%Z)) (c_content w_sig_f32)
+       (mk_obs Done (Some (mk_np [2; 2] F32 [(-3); 0; 1; 2]%Z)) [2; 2] (Some F32)) = [7]
+  /\ assign_violations Photon 2 3 (ODAssign (empty_container Photon 2 3)) (c_content w_ph_2d)
+       (mk_obs Done (c_content w_ph_2d) [2; 3] (Some F32)) = [8]
+  /\ assign_violations Signal 2 2 (OSet (mk_np [2; 2] F64 [5; 6; 7; 8]%Z)) (c_content w_sig_f32)
+       (mk_obs Done (c_content w_sig_f32) [2; 2] (Some F32)) = [8]
+  /\ assign_violations Signal 2 2 (OSet (mk_np [2; 2] F64 [5; 6; 7; 8]%Z)) (c_content w_sig_f32)
+       (mk_obs Done (Some (mk_np [2; 2] F64 [5; 6; 7; 8]%Z)) [2; 2] (Some F64)) = [].
+Proof. vm_compute. repeat split; reflexivity. Qed.
+
 (* ------------------------------------------------------------------ equality *)
 
 (* for ALL pairs of containers satisfying the invariant (NaN-free contents: numpy and xarray disagree
@@ -250,4 +313,53 @@ Example C13_ex_eq :
   /\ eq_res src_tables (mk_cont Photon 2 3 (Some ex_ok2d)) (mk_cont Photon 2 3 (Some (mk_np [2; 3] F64 [1; 2; 3; 4; 5; 6]%Z)))
      = RetBool true
   /\ Inv w_sig_init /\ inv_b (mk_cont Photon 2 3 (Some ex_3d)) = false.
+Proof. vm_compute. repeat split; reflexivity. Qed.
+
+(* multi-wavelength photons: the wavelength coordinate is part of the stored array -- the same numbers on another
+   wavelength grid (shifted, one value changed, reversed) are NOT equal, in both directions; an identical copy is *)
+Definition ex_3d_vals := [1; 1; 1; 1; 1; 1; 2; 1; 1; 1; 1; 1]%Z.
+Definition ph3 (wl : list Z) := mk_cont Photon 2 3 (Some (mk_xr [0; 1; 2] (Some wl) [2; 2; 3] F64 ex_3d_vals)).
+
+Example C13_ex_eq_wavelength :
+  eq_res src_tables (ph3 [400; 420]%Z) (ph3 [400; 420]%Z) = RetBool true
+  /\ eq_res src_tables (ph3 [400; 420]%Z) (ph3 [600; 700]%Z) = RetBool false
+  /\ eq_res src_tables (ph3 [600; 700]%Z) (ph3 [400; 420]%Z) = RetBool false
+  /\ eq_res src_tables (ph3 [400; 420]%Z) (ph3 [400; 440]%Z) = RetBool false
+  /\ eq_res src_tables (ph3 [400; 420]%Z) (ph3 [420; 400]%Z) = RetBool false
+  /\ eq_spec (ph3 [400; 420]%Z) (ph3 [400; 440]%Z) = false
+  /\ Inv (ph3 [400; 440]%Z) /\ content_nan_free (ph3 [400; 440]%Z) = true.
+Proof. vm_compute. repeat split; reflexivity. Qed.
+
+(* ------------------------------------------------------------------ the judge of the implementation *)
+
+(* The harness judges what the IMPLEMENTATION shows after every operation with `case_violations` (eight clauses:
+   invariant, failed operation preserves, read of an empty container raises, a read returns the stored array,
+   equality, resets, illegal assignments are refused, completed assignments store the assigned array).  Applied to
+   the model's own behaviour it never reports anything: for ALL operation sequences, from every state that
+   satisfies the invariant and is accepted by its setter (comparison operands satisfying the invariant; sequences
+   inside the modelled domain).  Every clause is therefore a consequence of the theorems above, and an
+   implementation that behaves like the model is never reported by the judge. *)
+Theorem C13_judge_accepts_model :
+  forall (ops : list op) (c : container) (ci j : nat),
+    Inv c -> accepted src_tables c = true -> eq_operands_inv ops = true -> hits_unmodelled src_tables c ops = false ->
+    case_violations (c_kind c) (c_rows c) (c_cols c) ops (model_obs src_tables c ops) (c_content c) ci j = [].
+Proof. intros. apply (judge_accepts_model src_tables C13_source_tables_ok); assumption. Qed.
+Print Assumptions C13_judge_accepts_model.
+
+Theorem C13_judge_accepts_model_from_empty :
+  forall (ops : list op) (k : ckind) (r c : nat),
+    eq_operands_inv ops = true -> hits_unmodelled src_tables (empty_container k r c) ops = false ->
+    violations [mk_case k r c ops (model_obs src_tables (empty_container k r c) ops)] = [].
+Proof.
+  intros ops k r c He Hu. unfold violations. cbn [violations_from mk_case k_kind k_rows k_cols k_ops k_obs]. rewrite app_nil_r.
+  exact (C13_judge_accepts_model ops (empty_container k r c) 0 0 (inv_empty k r c) (accepted_empty src_tables k r c) He Hu).
+Qed.
+Print Assumptions C13_judge_accepts_model_from_empty.
+
+(* non-vacuity: the long photon history above meets the hypotheses; and the judge is not trivially silent (it
+   reports the stale read below; C13_ex_assign shows clauses 7 and 8) *)
+Example C13_ex_judge :
+  eq_operands_inv ex_ops_photon = true /\ hits_unmodelled src_tables (empty_container Photon 2 3) ex_ops_photon = false
+  /\ violations [mk_case Photon 2 3 ex_ops_photon (model_obs src_tables (empty_container Photon 2 3) ex_ops_photon)] = []
+  /\ violations [mk_case Signal 2 2 [ORead] [mk_obs (RetArr (mk_np [2; 2] F64 [0; 0; 0; 0]%Z)) None [2; 2] None]] = [0; 0; 3].
 Proof. vm_compute. repeat split; reflexivity. Qed.
